@@ -664,28 +664,56 @@ func c10AuthChain(c *Ctx) {
 		c.Missing("R6", "(*lfsapi.Client).doWithAuth", "not found")
 		return
 	}
-	// first decision of the function: *count == / >= defaultMaxAuthAttempts -> error return
-	ifi, ok := lastInstr(fn.Blocks[0]).(*ssa.If)
-	good := false
-	if ok {
-		cond, flip := stripNot(ifi.Cond)
+	// before anything is sent the attempt counter is tested: every call that sends the request lies behind the
+	// "counter has not reached defaultMaxAuthAttempts" edge (a path rule, so the test may sit in a helper that was
+	// expanded in place)
+	pass := PassEdges(fn, func(cond ssa.Value) (bool, bool) {
 		op, x, y, isCmp := BinCmp(cond)
-		if isCmp && (op == token.EQL || op == token.GEQ) && !flip {
-			_, isParamLoad := Unwrap(x).(*ssa.UnOp)
-			isMax := false
-			if u, ok := y.(*ssa.UnOp); ok {
-				if g, ok := u.X.(*ssa.Global); ok && g.Name() == "defaultMaxAuthAttempts" {
-					isMax = true
-				}
+		if !isCmp {
+			return false, false
+		}
+		isMax := func(v ssa.Value) bool {
+			u, ok := v.(*ssa.UnOp)
+			if !ok {
+				return false
 			}
-			if isParamLoad && isMax {
-				// the true edge returns an error
-				tb := fn.Blocks[0].Succs[0]
-				if r, ok := lastInstr(tb).(*ssa.Return); ok && !IsNilConst(r.Results[1]) {
-					good = true
-				}
+			g, ok := u.X.(*ssa.Global)
+			return ok && g.Name() == "defaultMaxAuthAttempts"
+		}
+		if isMax(x) {
+			x, y = y, x
+			switch op {
+			case token.LSS:
+				op = token.GTR
+			case token.LEQ:
+				op = token.GEQ
+			case token.GTR:
+				op = token.LSS
+			case token.GEQ:
+				op = token.LEQ
 			}
 		}
+		if _, isDeref := Unwrap(x).(*ssa.UnOp); !isDeref || !isMax(y) {
+			return false, false
+		}
+		switch op {
+		case token.EQL, token.GEQ:
+			return false, true
+		case token.NEQ, token.LSS:
+			return true, true
+		}
+		return false, false
+	})
+	good := nonVacuous(pass)
+	nSend := 0
+	for _, ci := range CallsIn(fn, "(*lfsapi.Client).doWithCreds", "(*lfsapi.Client).getCreds") {
+		nSend++
+		if g, _ := Guarded(fn.Blocks[0], ci, pass, nil); !g {
+			good = false
+		}
+	}
+	if nSend == 0 {
+		good = false
 	}
 	c.Check(good, "R6", "doWithAuth:attempt-limit-at-entry", p.Pos(fn.Pos()), "authentication attempts are refused once the counter reaches the maximum", "doWithAuth does not start with the attempt-counter test")
 	// Approve only for 2xx
